@@ -24,7 +24,12 @@ def handle (l : Line) : IO Unit := do
       let c := parseCase l
       let b := build c.res
       let ts := toTables c.cfg b
-      for line in obsTables id c ts do IO.println line
+      match obsTables id c ts with
+      | [] => pure ()
+      | h :: rest =>
+        IO.println h
+        for line in rawLines id l c do IO.println line
+        for line in rest do IO.println line
       IO.println (specLine id c "ok")
   | _ => pure ()
 
